@@ -1,12 +1,13 @@
 """C17 - the suggested APBS grid encloses the molecule and is multigrid-legal.
 
-Model: coq/Model/Psize.v (psize.Psize after commit 54cff74, inputgen Input/Elec as
-used by io.dump_apbs).  Streams:
+Model: coq/Model/Psize.v (psize.Psize after commit 54cff74 and the repairs of findings
+C17-F11 / C17-F12, inputgen Input/Elec as used by io.dump_apbs).  Streams:
   A  numeric: PQR texts written by the repo's own writer (1..2000 atoms), atoms read
      back from the text by fixed column positions and handed to the Q model as
      decimal integers; Psize outputs compared (ints exact, rationals <= 1e-9).
-  B  text level: small files (<= 30 lines) with glued fields, header/comment lines,
-     short and malformed lines; parse_line/parse_lines of the model vs the code.
+  B  text level: small files (<= 30 lines) with fields that fill their columns and run
+     together (fixed layout: read by column since C17-F11 was repaired), header/comment
+     lines, short and malformed lines; parse_line/parse_lines of the model vs the code.
   C  io.dump_apbs text vs the model's rendering, plus end-to-end main_driver runs.
 Search: model-independent oracle on the real code (containment of every atom
 sphere, centring, 32k+1 >= 33, fine <= coarse, memory figure vs grid, header
@@ -37,17 +38,24 @@ META = {
         "For ALL boxes and parameter values every ngrid entry is 32k+1 >= 33 (any arithmetic). In exact arithmetic, "
         "for ALL atom lists and cfac >= 1, fadd >= 0: after accumulation every measured sphere is inside [min,max], "
         "the fine and coarse boxes are centred on the midpoint, contain [min,max] hence every sphere, fine <= coarse "
-        "(all parameters); set_smallest terminates within a proved fuel bound with 32k+1 entries under the ceiling; "
-        "reported MB = 200*nx*ny*nz/2^20 for ngrid. For ALL line lists a line not starting with ATOM/HETATM changes "
-        "no output (full strength since 54cff74). The .in text names Path(pqr).name and carries ngrid/coarse/fine. "
-        "Refuted with witnesses replayed on the code: fixed-column fields that fill their columns fuse (C17-F11), "
-        "Psize.__str__ raises whenever a parallel solve is needed (C17-F12); exact-guard partial theorems given."
+        "(all parameters); set_smallest terminates within a proved fuel bound with integer 32k+1 entries under the "
+        "ceiling; reported MB = 200*nx*ny*nz/2^20 for the grid reported (ngrid, or nsmall for a parallel solve), and "
+        "for ofrac >= 0 the report is produced for EVERY grid (C17-F12 repaired: no ':d' on a float, no zero divisor). "
+        "For ALL line lists a line not starting with ATOM/HETATM changes no output (54cff74). For ALL fixed-column "
+        "records whose five numbers fit their 8/8/8/8/7 columns - touching or not - and for all blank-separated "
+        "records the line is measured with exactly the numbers written (C17-F11 repaired; float() assumed to ignore "
+        "leading blanks). For ALL whitespace-delimited records (decimal points not in the PDB columns 34/42/50, as in "
+        "every --whitespace layout) the LAST five words after column 30 are measured whatever precedes them, e.g. the "
+        "insertion code at index 30 (C17-F13 repaired). The .in text names Path(pqr).name and carries ngrid/coarse/fine. "
+        "Not covered: numbers wider than their columns (truncated by the writer: C08 overflow finding); --whitespace "
+        "records written by a print_pqr that leaves z|q|r touching (before the C08 repairs) with |q| >= 100 or r >= 10."
     ),
     "level_note": (
         "Trusted: Coq kernel+vm_compute; float() and '%.4f' are oracles (python-filled table / exact half-even "
         "rendering in the executable instance); float rounding is not verified (measured: rationals agree <= 1e-9, "
         "int() sites within 1e-9 of a rounding boundary are counted and excluded); log() is modelled exactly for "
-        "0 < redfac < 1 only; APBS's reading of `mol 1` as the psize centre is assumed."
+        "0 < redfac < 1 only; that nsmall/proc_grid entries are python ints is a typing fact of the model checked on "
+        "every correspondence case; APBS's reading of `mol 1` as the psize centre is assumed."
     ),
     "design_ref": "DESIGN.md 4 C17, 5 F3",
 }
@@ -65,13 +73,15 @@ THEOREMS = [
     "C17_smallest_terminates",
     "C17_smallest_succeeds",
     "C17_mem_estimate",
-    "C17_report_total_refuted",
-    "C17_report_parallel_raises",
-    "C17_report_total_partial",
+    "C17_report_total",
+    "C17_report_parallel_witness",
     "C17_header_lines_ignored",
     "C17_header_lines_filtered",
-    "C17_fixed_columns_refuted",
-    "C17_fixed_columns_partial",
+    "C17_fixed_columns_measured",
+    "C17_separated_fields_measured",
+    "C17_fixed_columns_witness",
+    "C17_ws_tail_measured",
+    "C17_ws_tail_witness",
     "C17_input_names_pqr",
     "C17_basename",
     "C17_input_grid_lines",
@@ -88,6 +98,7 @@ HEADER = (
 SIG_GLUED = {"site": "Psize.parse_lines", "condition": "adjacent-fields-glued"}
 SIG_HEADER = {"site": "Psize.parse_lines", "condition": "non-coordinate-line-parsed"}
 SIG_REPORT = {"site": "Psize.__str__", "condition": "parallel-report-raises"}
+SIG_ICODE = {"site": "Psize.parse_lines", "condition": "insertion-code-read-as-number"}
 
 DEFAULTS = dict(cfac=1.7, fadd=20.0, space=0.5, gmemfac=200, gmemceil=400, ofrac=0.1, redfac=0.25)
 PKEYS = ["cfac", "fadd", "space", "gmemfac", "gmemceil", "ofrac", "redfac"]
@@ -118,9 +129,23 @@ HEADER_LINES = [
 # building PQR text with the repo's own writer
 
 
-def _atoms(spec):
+ICODES = ["A", "1", "B", "9", "Z", "0"]
+
+
+def gen_deco(rng):
+    """What stands before the numbers: chain ids written or not, insertion codes (letters and
+    digits) on none / some / all residues, residue numbers of up to four characters."""
+    return {
+        "chain": rng.random() < 0.5,
+        "icode": rng.choice(["none", "rare", "some", "all"]),
+        "resbase": rng.choice([1, 1, 95, 995, 9990, -105, -12]),
+    }
+
+
+def _atoms(spec, deco=None):
     from pdb2pqr.structures import Atom
 
+    deco = deco or {"chain": False, "icode": "rare", "resbase": 1}
     out = []
     for k, (het, x, y, z, q, r) in enumerate(spec):
         a = Atom()
@@ -129,8 +154,13 @@ def _atoms(spec):
         a.name = ["N", "CA", "C", "O", "HB1", "1HG2"][k % 6]
         a.res_name = ["ALA", "LIG", "HOH", "NTRP"][(k // 7) % 4] if het else "ALA"
         a.chain_id = "A"
-        a.res_seq = (k // 6) % 9999 + 1
-        a.ins_code = "A" if k % 53 == 52 else ""
+        a.res_seq = max(-999, min(9999, deco["resbase"] + (k // 6) % 9999))
+        if deco["icode"] == "rare":
+            a.ins_code = "A" if k % 53 == 52 else ""
+        elif deco["icode"] == "none":
+            a.ins_code = ""
+        else:
+            a.ins_code = ICODES[k % len(ICODES)] if (deco["icode"] == "all" or k % 3 == 0) else ""
         a.x, a.y, a.z = x, y, z
         a.ffcharge = q
         a.radius = r
@@ -138,13 +168,13 @@ def _atoms(spec):
     return out
 
 
-def write_pqr(ctx, spec, whitespace, path=None):
+def write_pqr(ctx, spec, whitespace, path=None, deco=None):
     """PQR text for the atoms as pdb2pqr writes it (print_biomolecule_atoms +
     main.print_pqr).  Returns the list of lines as file.readlines() gives them."""
     from pdb2pqr import io as pio
     from pdb2pqr import main as pmain
 
-    lines = pio.print_biomolecule_atoms(_atoms(spec), False)
+    lines = pio.print_biomolecule_atoms(_atoms(spec, deco), bool(deco and deco["chain"]))
     p = Path(path) if path else ctx.scratch_dir() / "w.pqr"
     p.parent.mkdir(parents=True, exist_ok=True)
     args = argparse.Namespace(output_pqr=str(p), whitespace=whitespace)
@@ -154,15 +184,45 @@ def write_pqr(ctx, spec, whitespace, path=None):
 
 
 COLS_FIXED = [(30, 38), (38, 46), (46, 54), (54, 62), (62, 69)]
-COLS_WS = [(32, 40), (41, 49), (50, 58), (58, 66), (66, 73)]
+# --whitespace layout of the tree under test (print_pqr decides where blanks go); probe_layout() sets it
+LAYOUT = {"ws": [(32, 40), (41, 49), (50, 58), (58, 66), (66, 73)], "ws_icode": 28}
+ICODE_FIXED = 26
+
+
+def probe_layout(ctx):
+    """Where print_pqr --whitespace puts the five numbers and the insertion code: one atom
+    with recognisable values is written and the fields are located in the text."""
+    deco = {"chain": True, "icode": "all", "resbase": 7}
+    from pdb2pqr import io as pio
+    from pdb2pqr import main as pmain
+
+    atoms = _atoms([(False, 1.111, 2.222, 3.333, 0.4444, 5.5555)], deco)
+    atoms[0].ins_code = "Q"
+    lines = pio.print_biomolecule_atoms(atoms, True)
+    p = ctx.scratch_dir() / "probe.pqr"
+    pmain.print_pqr(argparse.Namespace(output_pqr=str(p), whitespace=True), lines, [], [], False)
+    l = p.read_text().splitlines()[0]
+    cols = []
+    for tok, width in (("1.111", 8), ("2.222", 8), ("3.333", 8), ("0.4444", 8), ("5.5555", 7)):
+        end = l.index(tok) + len(tok)
+        cols.append((end - width, end))
+    LAYOUT["ws"] = cols
+    LAYOUT["ws_icode"] = l.index("Q")
+    return cols
 
 
 def is_coord(line):
     return line.startswith("ATOM") or line.startswith("HETATM")
 
 
+def cols_of(whitespace):
+    if isinstance(whitespace, (list, tuple)):  # explicit column table (corpus cases)
+        return [tuple(c) for c in whitespace]
+    return LAYOUT["ws"] if whitespace else COLS_FIXED
+
+
 def fields_of(line, whitespace):
-    return [line[a:b] for a, b in (COLS_WS if whitespace else COLS_FIXED)]
+    return [line[a:b] for a, b in cols_of(whitespace)]
 
 
 def read_back(lines, whitespace):
@@ -179,8 +239,11 @@ def read_back(lines, whitespace):
         except Exception:
             return None
         g = False
-        # fixed layout: x|y|z|q|r share borders; --whitespace inserts a blank after x and after y
-        for i in ((3, 4) if whitespace else (1, 2, 3, 4)):
+        # neighbours that share a border (fixed layout: all; --whitespace: those print_pqr does not separate)
+        cols = cols_of(whitespace)
+        for i in (1, 2, 3, 4):
+            if cols[i - 1][1] != cols[i][0]:
+                continue
             sep = f[i - 1].endswith(" ") or f[i].startswith(" ") or f[i].strip().startswith("-")
             g = g or not sep
         atoms.append((l.startswith("HETATM"), *vals))
@@ -221,6 +284,8 @@ def run_impl(lines, params, twice=False):
         rep = parse_report(text)
     except ValueError as e:
         rep = "ERR:ValueError-fmt-d" if "format code 'd'" in str(e) else f"ERR:ValueError:{e}"
+    except ZeroDivisionError:
+        rep = "ERR:ZeroDivisionError"
     except Exception as e:  # noqa
         rep = f"ERR:{type(e).__name__}:{e}"
     return {
@@ -290,20 +355,21 @@ def float_table(lines):
             s = l[k:]
             toks.update(s.split())
             toks.update(s.replace("-", " -").split())
+        # the fixed-column fallback hands whole columns (blanks included) to float()
+        toks.update(w for w in (l[a:b] for a, b in COLS_FIXED) if w.strip())
     items = []
     for t in sorted(toks):
-        try:
-            core.coq_string(t)
-        except ValueError:
+        if any(ord(ch) > 126 for ch in t):
             continue
+        key = core.coq_string_bytes(t)
         try:
             f = float(t)
         except ValueError:
-            items.append(f"({core.coq_string(t)}, None)")
+            items.append(f"({key}, None)")
             continue
         if math.isnan(f) or math.isinf(f):
             return None
-        items.append(f"({core.coq_string(t)}, Some {qlit(Fraction(*f.as_integer_ratio()))})")
+        items.append(f"({key}, Some {qlit(Fraction(*f.as_integer_ratio()))})")
     return core.coq_list(items)
 
 
@@ -411,7 +477,7 @@ def gen_params(rng, allow_bad=True):
     p["redfac"] = rng.choice([0.25, 0.1, 0.5, 0.75, round(rng.uniform(0.05, 0.9), 3)])
     bad = None
     if allow_bad and r > 0.93:
-        bad = rng.choice(["space0", "redfac1", "redfac0", "redfacneg", "ceil-tiny", "cfac0", "cfac<1", "fadd<0"])
+        bad = rng.choice(["space0", "redfac1", "redfac0", "redfacneg", "ceil-tiny", "cfac0", "cfac<1", "fadd<0", "ofrac<0"])
         if bad == "space0":
             p["space"] = 0.0
         elif bad == "redfac1":
@@ -428,15 +494,25 @@ def gen_params(rng, allow_bad=True):
             p["cfac"] = rng.choice([0.5, 0.9])
         elif bad == "fadd<0":
             p["fadd"] = rng.choice([-0.05, -5.0, -1000.0])
+        elif bad == "ofrac<0":
+            p["ofrac"] = rng.choice([-0.25, -0.5, -1.0])
     return p, bad
 
 
 EXTENTS = [0.0, 0.05, 0.1, 1.0, 7.5, 30.0, 80.0, 200.0, 1000.0, 10000.0]
 
 
+# what the fixed-column record can hold (wider numbers are truncated by the writer: C08 overflow finding)
+CAP_XYZ = (-999.999, 9999.999)
+CAP_Q = (-99.9999, 999.9999)
+CAP_R = (0.0, 99.9999)
+
+
 def gen_spec(rng, n, mode):
     """mode: 'safe' (every |coordinate| < 999 so fixed columns stay apart),
-    'any' (offsets to +-1e5, extents to 1e4)"""
+    'cap' (anything the 8/8/8/8/7 columns can hold: coordinates -999.999..9999.999 that
+    fill their columns and touch their neighbours; sometimes charges >= 100 / radii >= 10),
+    'any' (offsets to +-1e5, extents to 1e4: beyond the columns, --whitespace only)"""
     ext = [rng.choice(EXTENTS) * rng.choice([1.0, 1.0, 0.3, 0.01]) for _ in range(3)]
     if rng.random() < 0.5:
         ext = [ext[0]] * 3
@@ -445,18 +521,39 @@ def gen_spec(rng, n, mode):
         off = [rng.choice([0.0, -50.0, 12.345, -900.0, 500.0]) for _ in range(3)]
         off = [max(-998.0, min(o, 998.0 - e)) for o, e in zip(off, ext)]
         off = [max(o, -998.0) for o in off]
+    elif mode == "cap":
+        off = [rng.choice([0.0, -50.0, 12.345, -900.0, 500.0, 990.0, 999.5, -999.5, 5000.0, 9990.0]) for _ in range(3)]
+        ext = [min(e, CAP_XYZ[1] - o) for e, o in zip(ext, off)]
     else:
         off = [rng.choice([0.0, -50.0, 500.0, 990.0, 999.5, -999.5, 5000.0, -5000.0, 9990.0, 1e5, -1e5]) for _ in range(3)]
     spec = []
     rad0 = rng.random() < 0.1
+    # charges / radii that fill their columns: wherever the layout keeps or reads them apart
+    ws_all_apart = all(a[1] != b[0] for a, b in zip(LAYOUT["ws"], LAYOUT["ws"][1:]))
+    wide_qr = (mode == "cap" or (mode == "any" and ws_all_apart)) and rng.random() < 0.15
     for k in range(n):
         xyz = [round(o + rng.random() * e, 3) for o, e in zip(off, ext)]
         if mode == "safe":
             xyz = [max(-998.9, min(v, 998.9)) for v in xyz]
+        elif mode == "cap":
+            xyz = [max(CAP_XYZ[0], min(v, CAP_XYZ[1])) for v in xyz]
         q = round(rng.uniform(-1, 1), 4)
         r = 0.0 if rad0 else round(rng.choice([0.0, 0.6, 1.0, 1.2, 1.5, 1.8, 2.0, 2.2, rng.uniform(0.5, 3)]), 4)
+        if wide_qr and rng.random() < 0.5:
+            q = round(rng.choice([100.0, CAP_Q[0], CAP_Q[1], -10.0, rng.uniform(100, 999)]), 4)
+            r = round(rng.choice([10.0, CAP_R[1], r, rng.uniform(10, 99)]), 4)
         spec.append((rng.random() < 0.1, xyz[0], xyz[1], xyz[2], q, r))
     return spec, ext, off
+
+
+def over_capacity(spec):
+    """Some number of the atoms does not fit its fixed column (the writer truncates it)."""
+    for _, x, y, z, q, r in spec:
+        if not all(CAP_XYZ[0] - 0.0004 <= v < CAP_XYZ[1] + 0.0005 for v in (x, y, z)):
+            return True
+        if not (CAP_Q[0] - 0.00004 <= q < CAP_Q[1] + 0.00005 and r < CAP_R[1] + 0.00005):
+            return True
+    return False
 
 
 def insert_headers(rng, lines, how):
@@ -488,15 +585,36 @@ def unglue(lines, whitespace):
     return out
 
 
+def icode_col(whitespace):
+    """Index of the insertion code: always four columns before the x field."""
+    return cols_of(whitespace)[0][0] - 4
+
+
+def blank_icodes(lines, whitespace):
+    c = icode_col(whitespace)
+    return [(l[:c] + " " + l[c + 1 :]) if is_coord(l) and len(l) > c + 1 else l for l in lines]
+
+
 def oracle(impl, atoms, glued, params, lines, has_headers, whitespace=False):
     """atoms: exact decimals read back by column position.  Returns a list of
     (signature, what)."""
     out = []
     any_glued = any(glued)
     repaired_conds = None
+    noicode_conds = None
+    any_icode = bool(whitespace) and any(is_coord(l) and l[icode_col(whitespace) : icode_col(whitespace) + 1].strip() for l in lines)
 
     def diag(cond, site="Psize.set_all"):
-        nonlocal repaired_conds
+        nonlocal repaired_conds, noicode_conds
+        if any_icode:
+            # blamed on the insertion code standing at index 30 of a --whitespace record only if
+            # the failure goes away once the insertion codes are blanked
+            if noicode_conds is None:
+                bl = blank_icodes(lines, whitespace)
+                bi = run_impl(bl, params)
+                noicode_conds = {s["condition"] for s, _ in oracle(bi, atoms, [False] * len(atoms), params, bl, has_headers)}
+            if cond not in noicode_conds:
+                return dict(SIG_ICODE)
         if any_glued:
             # the failure is attributed to fused fields only if it goes away
             # once the same numbers are written with blanks between them
@@ -570,7 +688,9 @@ def oracle(impl, atoms, glued, params, lines, has_headers, whitespace=False):
         elif rep == "NOATOM":
             if any(not a[0] for a in atoms) and not any_glued:
                 out.append((diag("report-no-atom", "Psize.__str__"), "report says no ATOM entries although ATOM records exist"))
-        else:
+        elif well:
+            # (an overlap fraction < 0 is outside the parameter domain: nproc can be 1 on a reduced axis
+            # and fine / (xglob - 1) a division by zero; model and code agree on it - correspondence)
             out.append(({"site": "Psize.__str__", "condition": rep[:40]}, f"report failed: {rep}"))
     else:
         kind, est, per = rep
@@ -610,12 +730,16 @@ def run(ctx):
     logging.getLogger().setLevel(logging.CRITICAL)
     ctx.cov["rule"] = (
         "PQR texts written by the repo's own writer (print_biomolecule_atoms + print_pqr; fixed and --whitespace layout), "
-        "1..2000 atoms, extents 0..1e4 A, offsets to +-1e5, radius 0, HETATM mix, header/REMARK/TER/END/blank lines inserted, "
+        "1..2000 atoms, extents 0..1e4 A, offsets to +-1e5 (--whitespace) or anything the 8/8/8/8/7 fixed columns hold "
+        "(coordinates -999.999..9999.999, charges to 999.9999, radii to 99.9999, so that neighbouring fields touch), radius 0, "
+        "HETATM mix, header/REMARK/TER/END/blank lines inserted, "
         "x sizing parameters through the Psize constructor (7% out-of-domain); non-trivial = at least one atom measured and "
         "sizing returned; distinct by (layout, atom-count bucket, extent bucket, offset bucket, header mode, parameter tuple)"
     )
     ok = core.proof_stage(ctx, "C17", THEOREMS, ALLOWED_AXIOMS)
     rng = ctx.rng
+    probe_layout(ctx)
+    ctx.count("whitespace-layout:x-at-%d,icode-at-%d" % (LAYOUT["ws"][0][0], LAYOUT["ws_icode"]))
     mult = 10 if ctx.thorough else 1
 
     # ---------------- build cases ---------------------------------------
@@ -625,7 +749,7 @@ def run(ctx):
     for c in corpus_cases():
         lines = c["lines"]
         params = dict(DEFAULTS, **(c.get("params") or {}))
-        B_cases.append({"lines": lines, "params": params, "twice": bool(c.get("twice")), "tag": "corpus:" + c["file"], "ws": bool(c.get("whitespace")), "hdr": "corpus"})
+        B_cases.append({"lines": lines, "params": params, "twice": bool(c.get("twice")), "tag": "corpus:" + c["file"], "ws": c.get("cols") or bool(c.get("whitespace")), "hdr": "corpus", "sizing": bool(c.get("sizing"))})
     for f in repo_header_files():
         full = f.read_text().splitlines(keepends=True)
         hdr = [l for l in full if not is_coord(l)]
@@ -643,10 +767,10 @@ def run(ctx):
         else:
             n = rng.choice(sizes)
         ws = rng.random() < 0.5
-        spec, ext, off = gen_spec(rng, n, "any" if ws else "safe")
+        spec, ext, off = gen_spec(rng, n, "any" if ws else rng.choice(["cap", "cap", "safe"]))
         params, bad = gen_params(rng)
         hdr = rng.choice(["none", "none", "top", "mixed"])
-        A_cases.append({"spec": spec, "ws": ws, "params": params, "bad": bad, "hdr": hdr, "ext": ext, "off": off, "twice": rng.random() < 0.3})
+        A_cases.append({"spec": spec, "ws": ws, "params": params, "bad": bad, "hdr": hdr, "ext": ext, "off": off, "twice": rng.random() < 0.3, "deco": gen_deco(rng)})
 
     # rounding-boundary probes: exact arithmetic and binary64 fall on different sides of
     # int(fine/space + 0.5) here (fine = L exactly, L/space = 32k + 16.5), so ngrid differs;
@@ -661,16 +785,18 @@ def run(ctx):
     for k in range(nB):
         n = rng.choice([0, 1, 1, 2, 3, 4, 6, 9, 14])
         ws = rng.random() < 0.4
-        spec, ext, off = gen_spec(rng, n, "any")
+        # fixed layout beyond the columns ('any') stays in the text correspondence only: the writer has
+        # already truncated those numbers (C08), the sizing oracle does not judge them
+        spec, ext, off = gen_spec(rng, n, "any" if ws or rng.random() < 0.25 else "cap")
         params, bad = gen_params(rng)
         hdr = rng.choice(["none", "top", "mixed", "mixed"])
-        B_cases.append({"spec": spec, "ws": ws, "params": params, "bad": bad, "hdr": hdr, "ext": ext, "off": off, "twice": rng.random() < 0.4, "mal": rng.random() < 0.2})
+        B_cases.append({"spec": spec, "ws": ws, "params": params, "bad": bad, "hdr": hdr, "ext": ext, "off": off, "twice": rng.random() < 0.4, "mal": rng.random() < 0.2, "deco": gen_deco(rng)})
 
     # ---------------- materialise texts, run the implementation ---------
     def materialise(c):
         if "lines" in c:
             return
-        base = write_pqr(ctx, c["spec"], c["ws"])
+        base = write_pqr(ctx, c["spec"], c["ws"], deco=c.get("deco"))
         lines = insert_headers(rng, base, c["hdr"])
         if c.get("mal"):
             m = rng.choice(["short", "junk", "exp", "trunc", "extra", "nonl", "atomonly"])
@@ -705,7 +831,8 @@ def run(ctx):
     for c in A_cases:
         rb = read_back(c["lines"], c["ws"])
         c["rb"] = rb
-        if rb is None or any(rb[1]):
+        if rb is None or (c["ws"] and any(rb[1])):
+            # --whitespace keeps x|y|z apart only; touching z|q|r there are still skipped by the code
             ctx.count("A:skipped-not-separated")
             continue
         termsA.append(f"run_atoms {params_term(c['params'])} {coq_bool(c['twice'])} {atomsZ_term(rb[0])}")
@@ -789,9 +916,9 @@ def run(ctx):
     for k in range(extra_n):
         n = rng.choice([1, 1, 2, 3, 5, 8, 20, 60])
         ws = rng.random() < 0.4
-        spec, ext, off = gen_spec(rng, n, "any")
+        spec, ext, off = gen_spec(rng, n, "any" if ws else "cap")
         params, bad = gen_params(rng, allow_bad=False)
-        c = {"spec": spec, "ws": ws, "params": params, "bad": bad, "hdr": rng.choice(["none", "top", "mixed"]), "ext": ext, "off": off, "twice": False}
+        c = {"spec": spec, "ws": ws, "params": params, "bad": bad, "hdr": rng.choice(["none", "top", "mixed"]), "ext": ext, "off": off, "twice": False, "deco": gen_deco(rng)}
         materialise(c)
         c["impl"] = run_impl(c["lines"], c["params"])
         search_cases.append(c)
@@ -800,6 +927,9 @@ def run(ctx):
         if c.get("mal"):
             ctx.count("malformed:" + c.get("malkind", "?"))
             ctx.evaluated(("mal", c.get("malkind")), False)
+            continue
+        if not c["ws"] and over_capacity(c["spec"]):
+            ctx.count("fixed-layout-beyond-columns:not-judged(C08)")
             continue
         rb = c.get("rb") or read_back(c["lines"], c["ws"])
         if rb is None:
@@ -812,6 +942,13 @@ def run(ctx):
         has_hdr = c["hdr"] != "none"
         layout = "ws" if c["ws"] else "fixed"
         ctx.count(f"layout={layout}")
+        deco = c.get("deco") or {}
+        if deco.get("icode") in ("some", "all"):
+            ctx.count(f"insertion-codes:{layout}")
+        if deco.get("chain"):
+            ctx.count("chain-ids-written")
+        if deco.get("resbase") in (995, 9990, -105):
+            ctx.count("four-character-residue-numbers")
         ctx.count(f"headers={c['hdr']}")
         ctx.count("natoms<=" + str(next(b for b in (1, 10, 100, 1000, 10**9) if len(atoms) <= b)))
         if c.get("bad"):
@@ -844,6 +981,14 @@ def run(ctx):
                     atoms.append((l.startswith("HETATM"), *[Decimal(x) for x in w]))
             for sig, what in oracle(impl, atoms, [False] * len(atoms), c["params"], c["lines"], True):
                 ctx.fail(sig, what, {"lines": c["lines"][:60], "params": c["params"], "whitespace": True, "kind": "sizing"})
+        elif c.get("sizing"):
+            # regression inputs of repaired findings: the full sizing oracle, atoms read by column
+            rb = read_back(c["lines"], c["ws"])
+            if rb is None:
+                ctx.broke("generator-broken", f"corpus case {c.get('tag')} is not readable by columns", "")
+                continue
+            for sig, what in oracle(impl, rb[0], rb[1], c["params"], c["lines"], any(not is_coord(l) for l in c["lines"]), c["ws"]):
+                ctx.fail(sig, what, {"lines": c["lines"][:60], "params": c["params"], "whitespace": c["ws"], "kind": "sizing"})
 
     # dump_apbs / inputgen oracle + end-to-end runs
     for c in dump_cases:
@@ -918,8 +1063,8 @@ def dump_apbs_stream(ctx, n):
         inp.parent.mkdir(parents=True, exist_ok=True)
         nat = rng.choice([1, 2, 3, 5, 8, 12])
         ws = rng.random() < 0.5
-        spec, ext, off = gen_spec(rng, nat, "any" if ws else "safe")
-        lines = write_pqr(ctx, spec, ws, path=pqr)
+        spec, ext, off = gen_spec(rng, nat, "any" if ws else "cap")
+        lines = write_pqr(ctx, spec, ws, path=pqr, deco=gen_deco(rng))
         if rng.random() < 0.5:
             lines = insert_headers(rng, lines, "mixed")
             with open(pqr, "w", encoding="utf-8") as fh:
@@ -942,7 +1087,9 @@ def dump_oracle(c):
     out = []
     if c["text"] is None:
         rb = read_back(c["lines"], c["ws"])
-        if rb and any(rb[1]):
+        if c["ws"] and run_impl(c["lines"], dict(DEFAULTS), True)["status"] != "OK" and run_impl(blank_icodes(c["lines"], c["ws"]), dict(DEFAULTS), True)["status"] == "OK":
+            sig = dict(SIG_ICODE)
+        elif rb and any(rb[1]):
             sig = dict(SIG_GLUED)
         elif run_impl(c["lines"], dict(DEFAULTS), True)["status"] != "OK" and run_impl([l for l in c["lines"] if is_coord(l)], dict(DEFAULTS), True)["status"] == "OK":
             sig = dict(SIG_HEADER)
@@ -970,6 +1117,8 @@ def dump_oracle(c):
             out.append(({"site": "inputgen.Elec.__str__", "condition": "grid-lines-missing"}, "no dime/cglen/fglen in the input file"))
             return out
         sig = dict(SIG_GLUED) if any(glued) else {"site": "inputgen.Elec.__str__", "condition": "grid-lines"}
+        if c["ws"] and summ(run_impl(c["lines"], dict(DEFAULTS), True)) != summ(run_impl(blank_icodes(c["lines"], c["ws"]), dict(DEFAULTS), True)):
+            sig = dict(SIG_ICODE)
         if cent != ["cgcent mol 1", "fgcent mol 1"]:
             out.append((sig, f"boxes not centred on the molecule: {cent}"))
         for i in range(3):
@@ -993,20 +1142,31 @@ def end_to_end(ctx):
         ctx.notes.append("end-to-end skipped: tests/data/1AJJ.pdb missing")
         return
     root = ctx.scratch_dir() / "e2e"
+    root.mkdir(parents=True, exist_ok=True)
+    # the same structure moved by +985 A along y: part of its y coordinates fill their eight
+    # columns in the fixed layout (end-to-end regression of C17-F11)
+    shifted = root / "1AJJ_y985.pdb"
+    out = []
+    for l in src.read_text().splitlines(keepends=True):
+        if l.startswith(("ATOM", "HETATM")):
+            l = l[:38] + f"{float(l[38:46]) + 985.0:8.3f}" + l[46:]
+        out.append(l)
+    shifted.write_text("".join(out))
     runs = [
-        (["--ff=AMBER"], "o1/res.ult.pqr", "o1/res.ult.in", False),
-        (["--ff=PARSE", "--whitespace"], "o2/deep.er/dir/x.pqr", "o2/deep.er/dir/x.in", True),
+        (["--ff=AMBER"], "o1/res.ult.pqr", "o1/res.ult.in", False, src),
+        (["--ff=PARSE", "--whitespace"], "o2/deep.er/dir/x.pqr", "o2/deep.er/dir/x.in", True, src),
+        (["--ff=AMBER"], "o4/far.pqr", "o4/far.in", False, shifted),
     ]
     if ctx.thorough:
-        runs.append((["--ff=CHARMM", "--keep-chain"], "o3/k.pqr", "o3/k.in", False))
+        runs.append((["--ff=CHARMM", "--keep-chain"], "o3/k.pqr", "o3/k.in", False, src))
     cwd = os.getcwd()
-    for opts, prel, irel, ws in runs:
+    for opts, prel, irel, ws, pdb in runs:
         pqr, inp = root / prel, root / irel
         pqr.parent.mkdir(parents=True, exist_ok=True)
         case = {"kind": "e2e", "opts": opts, "pqr_rel": prel, "in_rel": irel}
         try:
             os.chdir(root)
-            args = build_main_parser().parse_args(opts + ["--apbs-input", str(inp), str(src), str(pqr)])
+            args = build_main_parser().parse_args(opts + ["--apbs-input", str(inp), str(pdb), str(pqr)])
             main_driver(args)
         except BaseException as e:  # noqa
             ctx.evaluated(("e2e", prel), False)
@@ -1031,6 +1191,7 @@ def replay(ctx, data):
     import logging
 
     logging.getLogger().setLevel(logging.CRITICAL)
+    probe_layout(ctx)
     case = data.get("case") or {}
     kind = case.get("kind")
     if kind in ("sizing", "header-pair"):
